@@ -367,11 +367,14 @@ def c11(ctx):
 @prop("C12", "Trace_C12")
 def c12(ctx):
     V.mc(ctx, "MC_C12", workers=8)
+    for inv in ("EraInv", "FracInv", "ReadingInv"):
+        V.apalache(ctx, "Apa_C12", "Init", inv, length=0, timeout=600)
     summ = V.gen_traces(ctx, shards=12)
     V.validate(ctx, "Trace_C12", summ, V.default_sig, par=12)
     return V.finish(ctx, "model_checking",
                     rule="MC: Ebp!Parse inverts the assembly of both flavours for all 256 flag bytes x grouping chains 1..3 x reserved tails 0..2, length byte included; the NTP conversion agrees with "
-                         "integer arithmetic at era boundaries and rounding points. B3: ReadEncoderBoundaryPoint on generated well-formed EBPs of both flavours (every flag combination, SAP, "
+                         "integer arithmetic at era boundaries, rounding points and 45 random fractions. Apalache (Apa_C12, unbounded integers): for ALL instants of the representable range the era reading of the 32-bit "
+                         "seconds field gives the seconds back, the rounded-up clamped fraction reads back within one nanosecond, and every fraction reads below 10^9 ns. B3: ReadEncoderBoundaryPoint on generated well-formed EBPs of both flavours (every flag combination, SAP, "
                          "grouping chains incl. 0x1C/0x1D, extreme seconds/fractions, partition flags, reserved tails) with every getter and the re-encoding validated by TLC; builder histories "
                          "through the setter API with decode-back; SetEBPTime/EBPTime over 1968..2104 with nanosecond boundary values (|t'-t| <= 1 ns in 64-bit Wide arithmetic). "
                          "class = (op, flavour, meaningful flag bits / era and nanosecond bucket)",
